@@ -7,6 +7,7 @@ import (
 	"regexp"
 	"strconv"
 	"strings"
+	"time"
 
 	"github.com/paulsonkoly/chess-3/board"
 	"github.com/paulsonkoly/chess-3/chess"
@@ -160,5 +161,38 @@ func RunPlain(s *search.Search, b *board.Board, opts ...search.Option) Result {
 			r.Nodes = l.Nodes
 		}
 	}
+	return r
+}
+
+// hitWriter sends the ponderhit from inside the write of info line number `after` (counted from 0), so that
+// the moment of the ponderhit is a function of the search's own progress and not of the scheduler.
+type hitWriter struct {
+	buf   bytes.Buffer
+	after int
+	seen  int
+	ch    chan time.Time
+}
+
+func (w *hitWriter) Write(p []byte) (int, error) {
+	if w.seen == w.after {
+		select {
+		case w.ch <- time.Now():
+		default:
+		}
+	}
+	w.seen++
+	return w.buf.Write(p)
+}
+
+// RunPonder performs a ponder search (limits are ignored until the ponderhit) whose ponderhit arrives while
+// info line number hitAfter is being written.
+func RunPonder(s *search.Search, b *board.Board, hitAfter int, opts ...search.Option) Result {
+	w := &hitWriter{after: hitAfter, ch: make(chan time.Time, 1)}
+	cnt := search.Counters{}
+	all := append([]search.Option{}, opts...)
+	all = append(all, search.WithCounters(&cnt), search.WithOutput(w), search.WithPonderHit(w.ch))
+	sc, m, p := s.Go(b, all...)
+	r := Result{Score: sc, Move: m, Ponder: p, Nodes: cnt.Nodes, Raw: w.buf.String()}
+	r.Lines, r.BadLine = Parse(r.Raw)
 	return r
 }
